@@ -274,7 +274,7 @@ def main():
                     payload = json.loads(payload)
                 except Exception:
                     payload = {"raw": payload}
-                match = [k for k in open_findings if k.get("matcher") == kind]
+                match = [k for k in open_findings if kind in (k.get("matcher") if isinstance(k.get("matcher"), list) else [k.get("matcher")])]
                 if match:
                     known_hit.append((match[0], payload))
                 else:
